@@ -13,7 +13,7 @@ TECHNIQUE = ('Hypothesis-generated pairs x all nine option combinations; indepen
              'constraints each option documents on every mapping and list edit at every depth')
 RULE = ("Cases: C01's generators for JSON-like documents, nested lists, plist-wrapped documents (all built by "
         "json.build_tree with the options), the same documents built through BasicBuilder / pydiff.build_tree and XML elements (attributes carry the dictionary strategy) x {auto, match, "
-        "none} x {on, off, off-when-same-length}. Oracle over the fully refined script: strategy none => no "
+        "none} x {on, off, off-when-same-length}; half of the 'none' cases ask for it as a library user would, BuildOptions(allow_key_edits=False) with auto_match_keys left at its default. Oracle over the fully refined script: strategy none => no "
         "non-insert/remove sub-edit of a mapping edit pairs items whose keys differ; auto => for every key present in "
         "both mappings some sub-edit pairs exactly those two items; list edits off (or off-when-same-length with equal "
         "lengths) => sub-edit i pairs element i with element i for i < min(len), followed only by removes (resp. "
@@ -28,7 +28,7 @@ MANIFEST_TEXT = ("Every mapping and list edit at every depth of every generated 
                  "meaning of its build options, for all nine combinations. Exploration over bounded documents.")
 MANIFEST_NOTE = "Trusts vf/script.py's walker and the README's wording of the option semantics."
 DESIGN_REF = 'DESIGN.md section 3, C10'
-SHRINK = {'docs': ['a', 'b'], 'enums': {'ds': 'auto', 'le': 'on'}}
+SHRINK = {'docs': ['a', 'b'], 'enums': {'ds': 'auto', 'le': 'on', 'api_none': False}}
 valid = gen.valid_case
 
 
@@ -46,7 +46,13 @@ def jobs(tier):
 
 def run_job(job, seed, sink):
     from .c01 import strategy_for
-    hyp_drive(strategy_for(job), job['n'], seed, sink)
+    n = [0]
+
+    def sink2(c):
+        # every other 'none' case asks for it the library way: BuildOptions(allow_key_edits=False) and nothing else
+        n[0] += 1
+        sink(dict(c, api_none=True) if c.get('ds') == 'none' and n[0] % 2 else c)
+    hyp_drive(strategy_for(job), job['n'], seed, sink2)
 
 
 def key_of(kvp):
@@ -165,10 +171,10 @@ def check(case):
         elif r.kind == 'ordered' and type(r.f) is ListNode and type(r.t) is ListNode:
             n_list += 1
             check_list(r, le, out, stats)
-    if case.get('family', 'json') == 'json' and not out.failures:
+    if case.get('family', 'json') == 'json' and not out.failures and not case.get('api_none'):
         check_cli(case, out)
     out.nontrivial = bool(stats.get('mixed-mapping') or stats.get('positional-tail'))
-    out.label('family:' + case.get('family', 'json'), 'ds:' + ds, 'le:' + le)
+    out.label('family:' + case.get('family', 'json'), 'ds:' + ds + ('(allow_key_edits=False only)' if case.get('api_none') else ''), 'le:' + le)
     for k in stats:
         out.label(k)
     out.info = {'mapping_edits': n_map, 'list_edits': n_list}
